@@ -305,6 +305,7 @@ func (Engine) Run(t *tape.Tape, o eng.Opts) *eng.Result {
 		res.Violations = append(res.Violations, eng.Violation{Property: "C13", Rule: rule, Detail: detail + "\n  history: " + describe(method, flusher, ops, recs) + "\n  underlying writer saw: " + q.Trace()})
 	}
 	if sr != nil && (sr.Deadlock || sr.Capped) {
+		res.Poisoned = sr.Deadlock
 		viol("liveness", "the history did not finish within its step budget")
 		return res
 	}
